@@ -109,7 +109,7 @@ RRd == {<<"A", <<>>, <<10, 0, 0, 1>>>>, <<"CNAME", << <<"rel", <<"t">>>> >>, <<>
         <<"MX", << <<"rel", <<"mail">>>> >>, <<10>>>>, <<"CNAME", << <<"abs", <<"t", "other">>>> >>, <<>>>>}
 RLinesRR == {RRLine(o, t, rd[1], rd[2], rd[3]) : o \in ROwners, t \in RTtls, rd \in RRd}
 RLinesDir == {[k |-> "origin", name |-> <<"abs", o>>] : o \in UOrigins}
-             \cup {[k |-> "origin", name |-> <<"rel", <<"a">>>>]}
+             \cup {[k |-> "origin", name |-> <<"rel", <<"a">>>>], [k |-> "origin", name |-> <<"rel", <<"b">>>>]}
              \cup {[k |-> "ttl", v |-> 60], [k |-> "blank", form |-> "comment"], [k |-> "bad", what |-> "qempty"]}
              \cup {G1, G1b, G2} \cup GNew
              \* ignored (out-of-zone) records in the multi-line layouts
@@ -132,7 +132,8 @@ RLinesSmall == {RRLine(o, t, rd[1], rd[2], rd[3]) :
                   o \in {<<"rel", <<"a">>>>, <<"blank">>, <<"abs", <<"x", "other">>>>}, t \in {<<"none">>, <<"t", 5>>},
                   rd \in {<<"A", <<>>, <<10, 0, 0, 1>>>>, <<"CNAME", << <<"rel", <<"t">>>> >>, <<>>>>}}
                \cup {RRLine(<<"at">>, <<"none">>, "SOA", << <<"rel", <<"ns">>>>, <<"abs", <<"hm", "other">>>> >>, <<7, 3600, 600, 86400, 60>>)}
-               \cup {[k |-> "ttl", v |-> 60], [k |-> "origin", name |-> <<"abs", <<"a", "example">>>>]}
+               \cup {[k |-> "ttl", v |-> 60], [k |-> "origin", name |-> <<"abs", <<"a", "example">>>>],
+                     [k |-> "origin", name |-> <<"rel", <<"b">>>>]}     \* a relative $ORIGIN after another $ORIGIN
 
 RLinesTiny == {RRLine(o, t, rd[1], rd[2], rd[3]) :
                   o \in {<<"rel", <<"a">>>>, <<"blank">>}, t \in {<<"none">>, <<"t", 5>>},
@@ -148,7 +149,9 @@ PSim == {[cls |-> {c}, ord |-> {o}, ttl |-> {"t", "u"}, tg |-> {g}, gen |-> {x},
            c \in {"none", "IN", "CLASS1"}, o \in {"tc", "ct"}, g \in Bool, x \in Bool, y \in {"single", "paren", "parenc", "paren0"}}
 GZCur == Curated
 GZGen == GenZones
-GZEmpties == {Z1, Z2, Z3, Z6, Z7}
+\* for sequences of $ORIGIN lines (absolute / relative arguments) around inherited names
+GZOrigins == {ZoneOf({<< <<"b", "a">>, "MX", 5, MX1 >>}), ZoneOf({<< <<"*", "a">>, "A", 300, A1 >>, << <<>>, "NS", 300, NS1 >>})}
+GZEmpties == {Z1, Z2, Z3, Z6, Z7, Z9}
 GZW1Thorough == {Z2, Z3, Z6}
 GZSinglesT == {ZoneOf({r}) : r \in {r \in AllRecs : r[3] = 300}}
 GZNone == {}
